@@ -243,6 +243,25 @@ def _recording(data):
     return _REC["r"]
 
 
+def _json_layout(obj, sel):
+    """The same JSON value written the ways JSON text comes: json.dumps default, compact, indented over several lines (a file written
+    with indent=2, or by hand), tab-indented with CRLF line ends, padded with blank lines, members in another order."""
+    k = sel % 7
+    if k == 0:
+        return json.dumps(obj)
+    if k == 1:
+        return json.dumps(obj, separators=(",", ":"))
+    if k == 2:
+        return json.dumps(obj, indent=2)
+    if k == 3:
+        return json.dumps(obj, indent="\t").replace("\n", "\r\n")
+    if k == 4:
+        return "\n\n  " + json.dumps(obj, indent=1) + "\n"
+    if k == 5:
+        return json.dumps(dict(reversed(list(obj.items()))), indent=4)
+    return " " + json.dumps(obj) + " \n"
+
+
 def _ctor(data, kind):
     return getattr(data, kind)
 
@@ -306,7 +325,7 @@ def check(spec, ctx):
     inputs = {
         "dict": (d, "dict"),
         "attributes": (types.SimpleNamespace(type=kind, coordinates=copy.deepcopy(c)), "attributes"),
-        "json": (json.dumps(d), "json"),
+        "json": (_json_layout(d, len(json.dumps(c)) + 3 * len(spec["muts"])), "json"),
     }
     if len(spec["muts"]) % 2 == 0:
         # mode names that arrive at run time (equal to the literals, not the same string objects)
@@ -342,7 +361,7 @@ def check(spec, ctx):
     extra = {"bbox": [0.0, 0.0, 1.0, 1.0], "id": "a1", "properties": {"note": "x"}}
     for name, build in (
         ("dict+extra", lambda: data.geometry_validate({**copy.deepcopy(d), **copy.deepcopy(extra)}, mode="dict")),
-        ("json+extra", lambda: data.geometry_validate(json.dumps({**d, **extra}), mode="json")),
+        ("json+extra", lambda: data.geometry_validate(_json_layout({**d, **extra}, len(json.dumps(c)) + 1), mode="json")),
         ("attributes+extra", lambda: data.geometry_validate(types.SimpleNamespace(type=kind, coordinates=copy.deepcopy(c), **copy.deepcopy(extra)), mode="attributes")),
         ("ctor+extra", lambda: _ctor(data, kind)(coordinates=copy.deepcopy(c), **copy.deepcopy(extra))),
     ):
@@ -427,7 +446,7 @@ def check(spec, ctx):
             ctx.fail("bounding box not normalised", spec, g.coordinates, norm, kind="normal_form")
         if kind == "LineString" and not g.coordinates[0][0] <= g.coordinates[-1][0]:
             ctx.fail("line string runs backward in time", spec, g.coordinates, norm, kind="normal_form")
-        back = data.geometry_validate(g.model_dump_json(), mode="json")
+        back = data.geometry_validate(g.model_dump_json(indent=(2 if len(json.dumps(c)) % 2 else None)), mode="json")
         if back != g or type(back) is not type(g):
             ctx.fail(f"{name}: re-validating the JSON dump gives a different geometry", spec, back.model_dump(), g.model_dump(), kind="json_roundtrip")
         back2 = data.geometry_validate(g, mode="attributes")
